@@ -46,6 +46,14 @@ def graph_case(r, n_files, edges, decl_counts, missing, decoys, spell_mode, incd
                     incdirs.append(d)
             else:
                 sp = os.path.relpath(dst, os.path.dirname(src) or '.')
+        # non-canonical spellings of the same path: './x', 'd/../x' (d an existing directory next to the importer)
+        if r.random() < 0.3:
+            here = os.path.dirname(src)
+            subdirs = sorted({os.path.relpath(os.path.dirname(q), here or '.').split(os.sep)[0] for q in paths
+                              if os.path.dirname(q) != here and os.path.dirname(q).startswith(here + '/' if here else '') and os.path.dirname(q)})
+            subdirs = [d for d in subdirs if d not in ('..', '.')]
+            if mode != 'cwd' or not here:
+                sp = (r.choice(subdirs) + '/../' + sp) if subdirs and r.random() < 0.6 else './' + sp
         bodies[src]['imports'].append(sp)
     for i in missing:
         bodies[paths[i]]['imports'].append('nowhere%d.pydjinni' % i)
@@ -59,6 +67,18 @@ def graph_case(r, n_files, edges, decl_counts, missing, decoys, spell_mode, incd
     for p, b in bodies.items():
         text = ''.join('@import "%s"\n' % s for s in b['imports']) + ''.join('%s = enum { a; }\n' % d for d in b['decls'])
         files[p] = text
+    # one spelling, different files: importers in different directories each import "common.pydjinni" and mean their own sibling
+    # (the search is per importing file: literal path, directory of the importer, include directories)
+    if n_files >= 2 and r.random() < 0.3:
+        import re as _re
+        first_in_dir = {}
+        for i, p in enumerate(paths):
+            first_in_dir.setdefault(os.path.dirname(p), i)
+        for d, i in list(first_in_dir.items())[:3]:
+            cp = os.path.join(d, 'common.pydjinni') if d else 'common.pydjinni'
+            if cp not in files:
+                files[cp] = 'common_in_%s = enum { a; }\n' % (_re.sub(r'\W', '_', d) or 'top')
+                files[paths[i]] = '@import "common.pydjinni"\n' + files[paths[i]]
     # decoys: same basename in a directory that is searched LATER; they declare a type that must never appear
     for k in range(decoys):
         victim = r.choice(paths[1:]) if n_files > 1 else None
